@@ -851,6 +851,12 @@ func (r *raft) broadcastHeartbeatMessage() {
 	if r.readIndex.hasPendingRequest() {
 		ctx := r.readIndex.peepCtx()
 		r.broadcastHeartbeatMessageWithHint(ctx)
+		// non-voting members are skipped above as they must not confirm
+		// ReadIndex requests, they still need the periodic heartbeat (without
+		// the hint) to learn the leader and the commit index
+		for id, rm := range r.nonVotings {
+			r.sendHeartbeatMessage(id, pb.SystemCtx{}, rm.match)
+		}
 	} else {
 		r.broadcastHeartbeatMessageWithHint(pb.SystemCtx{})
 	}
